@@ -125,7 +125,7 @@ let c06 ic =
 let c10 ic =
   let id = ref 0 and w = ref (n_of_int 64) in
   let ty s = IntDeser.(match s with "i8" -> I8 | "i16" -> I16 | "i32" -> I32 | "i64" -> I64 | "u8" -> U8 | "u16" -> U16
-                      | "u32" -> U32 | "u64" -> U64 | "usize" -> Usize | "isize" -> Isize | _ -> failwith "type") in
+                      | "u32" -> U32 | "u64" -> U64 | "usize" -> Usize | "isize" -> Isize | "echo" -> I32 | _ -> failwith "type") in
   (try while true do
     let line = input_line ic in
     match split line with
@@ -298,6 +298,10 @@ let c03 ic =
         Printf.printf "M %d FIN %d %s\n" !id (int_of_n st) (digest bytes);
         let (st', bytes') = WSpec.spec_finalize !sp in
         Printf.printf "S %d FIN %d %s\n" !id (int_of_n st') (digest bytes')
+    | ["REINIT"] ->
+        (* initialize_from_msgpack_bytes: everything default, the interner kept *)
+        ctx := { Writer.init with Writer.interned = !ctx.Writer.interned }; sp := WSpec.sinit;
+        Printf.printf "M %d REINIT\n" !id; Printf.printf "S %d REINIT\n" !id
     | ["INTERN"; h] ->
         let (c', i) = Writer.intern !ctx (nlist_of_hex h) in
         ctx := c'; Printf.printf "M %d ID %d\n" !id (int_of_n i); Printf.printf "S %d ID %d\n" !id (int_of_n i)
